@@ -213,6 +213,7 @@ pub async fn replay(path: &str) -> Result<String, String> {
                 sim.deliver(n, &bytes);
             }
             "DECODE" => sim.decode(&unhex(tk.next()?)?),
+            "DECODEOK" => sim.decode_expect_ok(&unhex(tk.next()?)?),
             "READ" => {
                 let n: usize = tk.num()?;
                 let member = id_of_wid(&parse_wid(tk.next()?)?)?;
@@ -232,7 +233,7 @@ pub async fn replay(path: &str) -> Result<String, String> {
                 }
                 sim.catchup(n, &member, &kvs, mx, gc);
             }
-            "ROUND" | "ROUNDSEND" | "HS" | "HSEND" | "HONEST" => sim.raw_record(head, "ok"),
+            "ROUND" | "ROUNDSEND" | "HS" | "HSEND" | "HONEST" => sim.raw_record(line.trim(), "ok"),
             t => return Err(format!("unsupported operation {t}")),
         }
     }
